@@ -88,8 +88,12 @@ fn read_table(sys : &VSys, paths : &Vec<String>) -> Read<Vec<(String, FileState)
 
 fn history_case(ctx : &mut Ctx, rng : &mut Rng, case : u64, small : bool)
 {
-    let entries = if small { rng.below(3) } else { rng.below(51) };
-    let targets = rng.range(1, 8);
+    // every eighth history is a corner of the stated range or beyond it (a rule built hundreds of times): what is
+    // recorded is read back whatever its size
+    let corner = !small && case % 16 == 2;
+    let (entries, targets) = if corner { *rng.pick(&[(50usize, 8usize), (50, 8), (120, 3), (210, 1), (400, 8)]) }
+        else { (if small { rng.below(3) } else { rng.below(51) }, rng.range(1, 8)) };
+    if corner { ctx.tally.counts.inc("large_histories"); }
     let mut rh = RuleHistory::new();
     let mut expected : Vec<(Ticket, Vec<Ticket>)> = vec![];
     for _ in 0..entries
@@ -136,7 +140,7 @@ fn history_case(ctx : &mut Ctx, rng : &mut Rng, case : u64, small : bool)
     }
 
     // every strict prefix is rejected
-    let step = if image.len() > 600 { 7 } else { 1 } * crate::verif::util::env_u64("VERIF_PREFIX_STEP", 1) as usize;
+    let step = if image.len() > 600 { 7.max(image.len() / 300) } else { 1 } * crate::verif::util::env_u64("VERIF_PREFIX_STEP", 1) as usize;
     let mut cut = 0;
     while cut < image.len()
     {
@@ -296,7 +300,7 @@ pub fn drive()
         if case % 2 == 0 { history_case(&mut ctx, &mut rng, case, case % 4 == 0); } else { table_case(&mut ctx, &mut rng, case, case % 4 == 1); }
         ctx.tally.cases_run += 1;
     }
-    ctx.tally.sample(J::obj(vec![("kinds", J::s("rule histories 0..50 entries x 1..8 targets and file-state tables 0..50 entries: write/read round trip, every strict prefix (every 7th/11th byte for images > 600 bytes), single bit flips at every position of images <= 400/300 bytes (300 random positions otherwise), 20 random byte strings each"))]));
+    ctx.tally.sample(J::obj(vec![("kinds", J::s("rule histories 0..50 entries x 1..8 targets (every eighth one a corner: 50x8, 120x3, 210x1, 400x8) and file-state tables 0..50 entries: write/read round trip, every strict prefix (every 7th/11th byte for images > 600 bytes), single bit flips at every position of images <= 400/300 bytes (300 random positions otherwise), 20 random byte strings each"))]));
     tally.emit_summary(&params, timed_out);
 }
 
